@@ -393,6 +393,9 @@ func expectedCovers(ld *loaded, harness string) []string {
 			if !strings.HasPrefix(l, "//") {
 				break
 			}
+			if strings.HasPrefix(l, "// cover-thorough:") && tier == "thorough" {
+				l = "// cover:" + strings.TrimPrefix(l, "// cover-thorough:")
+			}
 			if strings.HasPrefix(l, "// cover:") {
 				for _, c := range strings.Split(strings.TrimPrefix(l, "// cover:"), ",") {
 					if c = strings.TrimSpace(c); c != "" {
